@@ -44,6 +44,7 @@ const (
 	ptChangeIface
 	ptDeferStore
 	ptGoStore
+	ptInvokeCallback
 	ptNumTransports
 )
 
@@ -62,7 +63,8 @@ type verifPtrWorld struct {
 
 	intT, elem, P, PP, S, PS, SL, M, CH, E, FN types.Type
 	I                                     *types.Interface
-	iM                                    *types.Func
+	iM, iRun                              *types.Func
+	runT                                  [2]*ssa.Function
 	namedT                                [2]types.Type
 	methT                                 [2]*ssa.Function
 	idFns                                 [2]*ssa.Function
@@ -231,7 +233,11 @@ func verifNewPtrWorld(structElem bool) *verifPtrWorld {
 	}
 	// interface I { M(*int) *int } and two implementations T0, T1 (empty structs) whose M returns its argument
 	w.iM = types.NewFunc(token.NoPos, w.tpkg, "M", fnSig)
-	w.I = types.NewInterfaceType([]*types.Func{w.iM}, nil).Complete()
+	// unexported method  run(f func(*int) *int, p *int)  : calls f(p) and stores the result into the global
+	runSig := w.sig([]types.Type{w.FN, w.P}, nil)
+	w.iRun = types.NewFunc(token.NoPos, w.tpkg, "run", runSig)
+	w.I = types.NewInterfaceType([]*types.Func{w.iM, w.iRun}, nil).Complete()
+	var recvT []*types.Var
 	for k := 0; k < 2; k++ {
 		name := []string{"T0", "T1"}[k]
 		tn := types.NewTypeName(token.NoPos, w.tpkg, name, nil)
@@ -252,6 +258,7 @@ func verifNewPtrWorld(structElem bool) *verifPtrWorld {
 		w.namedT[k] = named
 		w.methT[k] = f
 		w.rtyps.Set(named, true)
+		recvT = append(recvT, recv)
 	}
 	// var G *int
 	gv := types.NewVar(token.NoPos, w.tpkg, "G", w.P)
@@ -261,6 +268,28 @@ func verifNewPtrWorld(structElem bool) *verifPtrWorld {
 	verifSetUnexported(w.global, "object", gv)
 	w.pkg.Members["G"] = w.global
 	w.objs[gv] = w.global
+	for k := 0; k < 2; k++ {
+		named := w.namedT[k].(*types.Named)
+		fv := types.NewVar(token.NoPos, w.tpkg, "f", w.FN)
+		pv := types.NewVar(token.NoPos, w.tpkg, "p", w.P)
+		rsig := types.NewSignatureType(recvT[k], nil, nil, types.NewTuple(fv, pv), nil, false)
+		robj := types.NewFunc(token.NoPos, w.tpkg, "run", rsig)
+		named.AddMethod(robj)
+		f := &ssa.Function{Pkg: w.pkg, Prog: w.prog, Signature: rsig}
+		verifSetUnexported(f, "name", "run")
+		verifSetUnexported(f, "object", robj)
+		w.funcs[f] = true
+		w.param(f, "t", named, recvT[k])
+		fp := w.param(f, "f", w.FN, fv)
+		pp := w.param(f, "p", w.P, pv)
+		c := &ssa.Call{}
+		c.Call.Value = fp
+		c.Call.Args = []ssa.Value{pp}
+		verifSetUnexported(c, "typ", w.P)
+		w.simpleFn(f, []ssa.Instruction{c, &ssa.Store{Addr: w.global, Val: c}, &ssa.Return{}})
+		w.objs[robj] = f
+		w.runT[k] = f
+	}
 	return w
 }
 
@@ -496,6 +525,24 @@ func (w *verifPtrWorld) transport(t int, v ssa.Value, other ssa.Value, variant i
 		fb := w.val(&ssa.FieldAddr{X: ps, Field: variant}, w.PP)
 		w.Cells = append(w.Cells, fa, fb)
 		return w.load(fb, w.P)
+	case ptInvokeCallback:
+		// var i I = T_k{} ; i.run(id_k', v)  (result-less interface call taking a function value) ; q = G
+		tp := w.alloc(w.namedT[variant], "recv")
+		tv := w.load(tp, w.namedT[variant])
+		iv := w.val(&ssa.MakeInterface{X: tv}, w.I)
+		cb := w.idFns[1-variant]
+		c := &ssa.Call{}
+		c.Call.Value = iv
+		c.Call.Method = w.iRun
+		c.Call.Args = []ssa.Value{cb, v}
+		w.val(c, types.NewTuple())
+		run := w.runT[variant]
+		w.Calls = append(w.Calls, verifPtrCall{c, run})
+		w.Calls = append(w.Calls, verifPtrCall{run.Blocks[0].Instrs[0].(*ssa.Call), cb})
+		w.Params = append(w.Params, run.Params[2], cb.Params[0])
+		w.Cells = append(w.Cells, w.global)
+		// a second, direct use of G as a value keeps a value node for it
+		return w.load(w.val(&ssa.ChangeType{X: w.global}, w.PP), w.P)
 	case ptDeferStore, ptGoStore:
 		// defer put(v, c) / go put(v, c) ; the cell is read afterwards (after the deferred call has run, resp. in an
 		// execution where the goroutine has already stored)
@@ -939,5 +986,23 @@ func VerifBuildFlowProgram(share int, shareFirst bool, t int, variant int) *Veri
 	w.endFn()
 	verifSetUnexported(w.pkg, "objects", w.objs)
 	verifSetUnexported(w.prog, "runtimeTypes", w.rtyps)
+	return out
+}
+
+// VerifPtrProgram is the exported view of a generated transport-chain program (for harnesses of other packages).
+type VerifPtrProgram struct {
+	Prog     *ssa.Program
+	Funcs    map[*ssa.Function]bool
+	Executed map[*ssa.Function]bool // functions that run in the program's execution
+}
+
+func VerifBuildPtrProgram(ts, variants []int, k, split int) *VerifPtrProgram {
+	w := verifBuildPtrChain(ts, variants, k, split)
+	out := &VerifPtrProgram{Prog: w.prog, Funcs: w.funcs, Executed: map[*ssa.Function]bool{}}
+	out.Executed[w.pkg.Func("main")] = true
+	out.Executed[w.pkg.Func("init")] = true
+	for _, c := range w.Calls {
+		out.Executed[c.Callee] = true
+	}
 	return out
 }
